@@ -3,10 +3,11 @@
 TIER=${1:-quick}
 cd "$(dirname "$0")/.." || exit 2
 ./setup.sh >/dev/null 2>&1 || { echo "setup failed"; exit 2; }
+mkdir -p work
 for p in C01 C02 C03 C04 C05 C06 C07 C08 C09 C10 C11 C12 C13 C14 C15 C16 C17 C18 C19 C20; do
   s=$(date +%s)
-  ./check $p --tier $TIER > work_$p.out 2> work_$p.err
+  ./check $p --tier $TIER > work/run_$p.out 2> work/run_$p.err
   rc=$?
   e=$(date +%s)
-  echo "$p tier=$TIER exit=$rc secs=$((e-s)) $(grep -c VIOLATION work_$p.out) violations; $(tail -1 work_$p.err | cut -c1-160)"
+  echo "$p tier=$TIER exit=$rc secs=$((e-s)) $(grep -c VIOLATION work/run_$p.out) violations; $(tail -1 work/run_$p.err | cut -c1-160)"
 done
